@@ -20,6 +20,7 @@ from collections import OrderedDict
 from typing import Any
 from typing import Callable
 from typing import Iterator
+from typing import Mapping
 from typing import NamedTuple
 
 NAMES = ("a", "b", "c")
@@ -33,7 +34,22 @@ PLACEHOLDER_WHO = "{{ who }}"
 
 
 # partial-loading families ("p-*"): templates that contain render / include / extends tags
-P_NAMES = ("page", "ipage", "child", "solo", "card", "leaf", "base")
+P_NAMES = ("page", "ipage", "child", "solo", "card", "leaf", "base",
+           # roots that bind the namespace key's NAME locally to another caller's value
+           # (global `other`) before a tag loads a partial; rpage passes it as a render
+           # argument, which does become a global of the rendered partial's context
+           "apage", "cpage", "fpage", "wpage", "kpage", "rpage")
+P_LOCAL_ROOTS = (7, 8, 9, 10, 11, 12)
+P_WRAP = {
+    "apage": ("{% assign ns = other %}[{% render 'card' %}]", ""),
+    "cpage": ("{% capture ns %}{{ other }}{% endcapture %}[{% render 'card' %}]", ""),
+    "fpage": ("{% for ns in others %}[{% render 'card' %}]{% endfor %}", ""),
+    "wpage": ("{% with ns: other %}[{% render 'card' %}]{% endwith %}", ""),
+    "kpage": ("[{% include 'card', ns: other %}]", ""),
+    "rpage": ("[{% render 'card', ns: other %}]", ""),
+}
+P_STRIP = ("{% assign ns = other %}", "{% capture ns %}{{ other }}{% endcapture %}",
+           "{% for ns in others %}", "{% endfor %}", "{% with ns: other %}", "{% endwith %}")
 P_TOPS = (0, 1, 2, 3, 4)  # what histories load at top level: page ipage child solo card
 P_MUTATIONS = (("modify", 4), ("modify", 5), ("modify", 6), ("modify", 0),
                ("delete", 4), ("delete", 5))
@@ -130,43 +146,71 @@ def p_source(place: str, name: str, version: int) -> str:
         return m + "[{% include 'leaf' %}](" + P_BLOCK + ")"
     if name == "child":
         return "{% extends 'base' %}{% block b %}" + m + "{% endblock %}"
+    if name in P_WRAP:
+        return m + P_WRAP[name][0]
     return m
 
 
 P_BLOCK = "{% block b %}d{% endblock %}"
-RE_P_TAG = re.compile(r"\{% (render|include) '(\w+)' %\}")
+RE_P_TAG = re.compile(r"\{% (render|include) '(\w+)'(, ns: other)? %\}")
 RE_P_EXTENDS = re.compile(r"^\{% extends '(\w+)' %\}\{% block b %\}(.*)\{% endblock %\}$", re.S)
 RE_MARKER = re.compile(r"<([^:|<>]+):([^:|<>]+):v(\d+)\|([^|<>]*)\|([^|<>]*)>")
 
 
-def p_expand(source: str, who: object, load: Callable[[str, str], tuple[str, str]]) -> tuple[str, str]:
-    """Reference rendering of a p_source text.  load(name, tag) performs the model-level
-    load of a partial and returns ("ok", its source) or ("err", class); loads happen in
-    document order, depth first — exactly when the engine's tags ask the loader."""
+def p_expand(source: str, who: object, load: Callable[[str, str, bool], tuple[str, str]],
+             other: bool = False) -> tuple[str, str]:
+    """Reference rendering of a p_source text.  load(name, tag, other) performs the
+    model-level load of a partial and returns ("ok", its source) or ("err", class); loads
+    happen in document order, depth first — exactly when the engine's tags ask the loader.
+    *other*: the enclosing render passed `ns: other` as an argument, which makes the other
+    namespace a GLOBAL of that isolated render context (local bindings — assign, capture,
+    for variable, with, include arguments — never are: they are stripped as no-ops here)."""
     m = RE_P_EXTENDS.match(source)
     if m:
-        r = load(m.group(1), "extends")
+        r = load(m.group(1), "extends", other)
         if r[0] != "ok":
             return r
         block = render_ref(m.group(2), who, None)
-        r2 = p_expand(r[1].replace(P_BLOCK, "\x00"), who, load)
+        r2 = p_expand(r[1].replace(P_BLOCK, "\x00"), who, load, other)
         if r2[0] != "ok":
             return r2
         return ("ok", r2[1].replace("\x00", block))
+    for junk in P_STRIP:
+        source = source.replace(junk, "")
     out: list[str] = []
     pos = 0
     for t in RE_P_TAG.finditer(source):
         out.append(render_ref(source[pos : t.start()], who, None))
-        r = load(t.group(2), t.group(1))
+        r = load(t.group(2), t.group(1), other)
         if r[0] != "ok":
             return r
-        r2 = p_expand(r[1], who, load)
+        inner_other = other or (t.group(1) == "render" and t.group(3) is not None)
+        r2 = p_expand(r[1], who, load, inner_other)
         if r2[0] != "ok":
             return r2
         out.append(r2[1])
         pos = t.end()
     out.append(render_ref(source[pos:], who, None))
     return ("ok", "".join(out))
+
+
+def locals_histories() -> Iterator[tuple[Op, ...]]:
+    """Namespace-key-bound-locally family: loads of the six binding roots, page and card
+    under namespace none / t1 / t2; every history of length <= 2, and every
+    load, CHANGE, load with CHANGE in modify card / modify leaf / delete leaf.
+    (all-sync; the caller also runs them all-async)."""
+    tops = (*P_LOCAL_ROOTS, 0, 4)
+    loads = [Op("load", n, ns, 1) for n in tops for ns in (0, 1, 2)]
+    changes = (Op("modify", 4), Op("modify", 5), Op("delete", 5))
+    for a in loads:
+        yield (a,)
+    for a in loads:
+        for b in loads:
+            yield (a, b)
+    for a in loads:
+        for c in changes:
+            for b in loads:
+                yield (a, c, b)
 
 
 def partials_histories(length: int, with_ns: bool) -> Iterator[tuple[Op, ...]]:
@@ -280,6 +324,56 @@ def render_ref(source: str, who: object, site: object) -> str:
     return source.replace(PLACEHOLDER_WHO, "" if who is None else str(who)).replace(
         PLACEHOLDER_SITE, "" if site is None else str(site)
     )
+
+
+def m_body(place: str, name: str, version: int) -> str:
+    """Source with front matter (the documented FrontMatterLoader style): the matter
+    defines `site` (which the environment may define too) and, for name 'b', also `who`
+    (which template globals, environment globals and render arguments may define too)."""
+    head = f"---\nsite: M{version}\n" + ("who: Mw\n" if name == "b" else "") + "---\n"
+    return head + body(place, name, version, True)
+
+
+RE_FRONT = re.compile(r"^---\n(.*?)---\n", re.S)
+
+
+def split_front_matter(source: str) -> tuple[dict[str, object] | None, str]:
+    m = RE_FRONT.match(source)
+    if not m:
+        return None, source
+    matter: dict[str, object] = {}
+    for line in m.group(1).splitlines():
+        k, _, v = line.partition(": ")
+        matter[k] = v
+    return matter, source[m.end():]
+
+
+def with_matter(source: str, matter: Mapping[str, object] | None) -> str:
+    """Snapshot text of a loaded source: the matter travels with the text."""
+    if not matter:
+        return source
+    head = "".join(f"{k}: {v}\n" for k, v in sorted(matter.items()))
+    return "\x02" + head + "\x02" + source
+
+
+def render_with_matter(snapshot: str, arg_who: object, tmpl_who: object, env_who: object,
+                       env_site: object) -> str:
+    """Reference rendering: render argument > matter > template globals > environment
+    globals (docs: matter is 'merged with environment and template globals')."""
+    matter: dict[str, str] = {}
+    text = snapshot
+    if snapshot.startswith("\x02"):
+        _, head, text = snapshot.split("\x02", 2)
+        for line in head.splitlines():
+            k, _, v = line.partition(": ")
+            matter[k] = v
+    who = arg_who or matter.get("who") or tmpl_who or env_who
+    site = matter.get("site") or env_site
+    return render_ref(text, who, site)
+
+
+def plain_text(snapshot: str) -> str:
+    return snapshot.split("\x02", 2)[2] if snapshot.startswith("\x02") else snapshot
 
 
 RE_OUT = re.compile(r"^<([^:|<>]+):([^:|<>]+):v(\d+)\|([^|<>]*)\|([^|<>]*)>$")
@@ -843,6 +937,8 @@ def simplifications(ops: list[Op], fam: str = "") -> Iterator[list[Op]]:
     one namespace, namespace by keyword), then one attribute of one step."""
     loads = [o for o in ops if o.kind == "load"]
     nsfam = is_ns_family(fam)
+    if any(o.env for o in loads):
+        yield [o._replace(env=0) if o.kind == "load" else o for o in ops]
     if any(o.mode for o in loads):
         yield [o._replace(mode=0) if o.kind == "load" else o for o in ops]
     if any(o.ns for o in loads):
